@@ -9,7 +9,6 @@
  * so "the string printed" is <a1> " B", <a1> "." <a2> " " <pfx> "B" or <a1> " " <pfx> "B" by the C11 7.21.6.1
  * meaning of %d and %c.
  */
-#include <stdarg.h>
 #include <stddef.h>
 #include <stdint.h>
 
@@ -25,53 +24,62 @@ char * g_asp_ret;
 
 #ifndef VERIF_NATIVE
 int nondet_int(void);
-size_t nondet_size_t(void);
 void * malloc(size_t);
 int strcmp(const char *, const char *);
 
-int
-libcperciva_asprintf(char ** ret, const char * format, ...)
+/*
+ * goto-instrument --dfcc cannot instrument variadic functions (the write-set parameter it appends collides with
+ * the variable arguments: measured here, the write set is corrupted and bit-blasting runs out of memory), so
+ * contracts/util__humansize.c.spec routes the three asprintf(...) calls of humansize() -- by argument count,
+ * with a macro, the call text itself is untouched -- to these three fixed-arity entry points.
+ */
+static int
+num_asprintf_common(char ** ret, const char * format, const char * expected, int kind, int a1, int a2, int pfx)
 {
-	va_list ap;
-	size_t n;
 	char * p;
 
 	__CPROVER_precondition(ret != NULL && format != NULL, "asprintf: non-NULL arguments");
 	g_asp_calls++;
-	g_asp_a1 = g_asp_a2 = g_asp_pfx = 0;
-	va_start(ap, format);
-	if (strcmp(format, "%d B") == 0) {
-		g_asp_kind = 0;
-		g_asp_a1 = va_arg(ap, int);
-	} else if (strcmp(format, "%d.%d %cB") == 0) {
-		g_asp_kind = 1;
-		g_asp_a1 = va_arg(ap, int);
-		g_asp_a2 = va_arg(ap, int);
-		g_asp_pfx = va_arg(ap, int) & 0xff;	/* %c prints (unsigned char)arg; also: cbmc passes a char vararg unpromoted */
-	} else if (strcmp(format, "%d %cB") == 0) {
-		g_asp_kind = 2;
-		g_asp_a1 = va_arg(ap, int);
-		g_asp_pfx = va_arg(ap, int) & 0xff;	/* %c prints (unsigned char)arg; also: cbmc passes a char vararg unpromoted */
-	} else {
-		g_asp_kind = -1;
-		__CPROVER_assert(0, "MODEL asprintf: format string not one of the three used by humansize()");
-	}
-	va_end(ap);
+	g_asp_kind = kind;
+	g_asp_a1 = a1;
+	g_asp_a2 = a2;
+	g_asp_pfx = pfx & 0xff;		/* %c prints (unsigned char)arg */
+	__CPROVER_assert(strcmp(format, expected) == 0,
+	    "MODEL asprintf: the format string is the one this arity is used with in humansize()");
 
 	/* failure: -1, *ret unspecified */
-	n = nondet_size_t();
-	__CPROVER_assume(n >= 3 && n <= 16);
-	p = malloc(n + 1);
+	p = malloc(16);		/* (room for the longest of the three forms, "999 XB" + NUL; the text is not modelled) */
 	if (p == NULL || nondet_int()) {
 		g_asp_fail = 1;
 		g_asp_ret = NULL;
 		return (-1);
 	}
-	p[n] = '\0';
+	p[15] = '\0';
 	*ret = p;
 	g_asp_fail = 0;
 	g_asp_ret = p;
-	return ((int)n);
+	return (15);
+}
+
+int
+num_asprintf1(char ** ret, const char * format, int a1)
+{
+
+	return (num_asprintf_common(ret, format, "%d B", 0, a1, 0, 0));
+}
+
+int
+num_asprintf2(char ** ret, const char * format, int a1, int pfx)
+{
+
+	return (num_asprintf_common(ret, format, "%d %cB", 2, a1, 0, pfx));
+}
+
+int
+num_asprintf3(char ** ret, const char * format, int a1, int a2, int pfx)
+{
+
+	return (num_asprintf_common(ret, format, "%d.%d %cB", 1, a1, a2, pfx));
 }
 
 void
